@@ -39,6 +39,11 @@ SetMeta(o, S) ==
     replaced |-> Sorted(ReplacedObsolete(o, S)),
     categories |-> LET f == SetCategories(o, S) ks == Sorted(DOMAIN f) IN [i \in 1..Len(ks) |-> <<ks[i], f[ks[i]]>>] ]
 
+(* per term: HpoTerm::categories() (ascending ids) and HpoTerm::is_modifier() *)
+TermMeta(o, t) == [ id |-> t, categories |-> Sorted(AncSelf(ParOf(o), t) \cap CatRoots(o)),
+                    is_modifier |-> AncSelf(ParOf(o), t) \cap ModRoots(o) # {} ]
+TermMetas(o) == LET ids == Sorted(IdsOf(o)) IN [i \in 1..Len(ids) |-> TermMeta(o, ids[i])]
+
 SetMetas(o) == LET subs == SetToSeq(SUBSET IdsOf(o)) IN [i \in 1..Len(subs) |-> SetMeta(o, subs[i])]
 
 MetaSane(o) ==
